@@ -4,7 +4,8 @@
    file (its successor not created yet); and no premise at all when ALL the data of the call are
    in the image (lenN (ev_data pe) = lenN (ev_data evs): crash in the flush/sync/unlink tail).  Extra premise: the room of the junk-tolerant state
    (lenN PRE0 + rm0 <= end of the current file), which jstate provides.
-   (copy of JRecover5.v; JRecoverS5.crash_stream_preG for the new case) *)
+   [compile-time rework] now a corollary of JRecover3.recover_vcall_setup_gen, where the proof is done once.
+   hideP is kept only for name stability. *)
 From Coq Require Import Lia ZArith ZifyN ZifyNat ZifyBool List Sorted.
 From MRL Require Import Bytes BytesProofs Params Names NamesProofs Frame Record Mem Spec Rolling Log
   Driver Hist NoopProofs SpecRefine RecordProofs StreamProofs PolicyProofs GcProofs GhostLog ReplaySpec
@@ -105,271 +106,22 @@ Theorem recover_vcall_setup_at3 st G (X : list entry) st' G' evs :
         ((forall q, s_get (abs_qs qs_log) q = s_get (abs_qs (s_qs st)) q) \/
          (forall q, s_get (abs_qs qs_log) q = s_get (abs_qs (s_qs st')) q)).
 Proof.
-  intros HI Hp0 HI' Eb EALL' Hp0' HwfX Hct Hfs Hprefix Hnilabs Hcb Hcb'
-         pe Hcpre Hfitpe Hroom00. cbn zeta.
-  change (hideP (lenN PRE0 + rm0 <= (w_file (s_wr st) + 1 - gh_base G) * FB)) in Hroom00.
-  apply (fun x => (x : hideP _)) in Hfitpe.
-  pose proof HI' as (HP'0 & _).
-  destruct (InvJ_winv P PRE0 OLD0 opos0 st' G' HI') as ((_ & _ & _ & _ & Hu'0 & _) & _ & _).
-  destruct (image_shape_of_trace P HBS_lo HBS_hi HNB Hcrc PRE0 OLD0 opos0 (s_wr st) G _ _ _ evs pe (proj1 HI) Hp0 Hct Hu'0 Hcpre)
-    as (nu & hi & short & z & Hlohi & Hf0hi & Hhif1 & Hhimax & Hndk & Hdir &
-        Hlist & Hlens & Hshort & Hdata & Hj & Hstream & Hlen & Hnuj).
-  cbn zeta in *.
-  pose proof HI as (HP & HL).
-  pose proof HI' as (HP' & HL').
-  set (img := fold_left apply_event pe (c_fs (w_ctx (s_wr st)))) in *.
-  set (j := lenN (ev_data pe)) in *.
-  set (w := s_wr st) in *. set (lo := wlo w) in *. set (lo' := lo + N.of_nat nu) in *.
-  set (base := gh_base G) in *. set (T := jT0 G) in *.
-  change ((wlo (s_wr st) - gh_base G) * FB + wpos P (s_wr st)) with (call_cursor P st G) in *.
-  set (c0 := call_cursor P st G) in *.
-  set (NEW := encs_of c0 (ser X)) in *.
-  destruct (pinvJ_setup P HBS_lo HBS_hi HNB Hcrc PRE0 OLD0 opos0 w G HP)
-    as (Hlb & Ebuf & HS & Hposn & Hn & Hn1). cbn zeta in *.
-  pose proof HP as (Hw & (_ & Hdir0) & Hnd0 & Hbase & Hc1 & Hc2 & _ & HWf & _). cbn zeta in Hc1, Hc2.
-  pose proof Hw as (Hok & Hwf' & Hoff & Hplan & Hu & Hfull & Hfresh).
-  rewrite (vfs_nil w Hp0) in Hfull, Hfresh.
-  set (fs0 := c_fs (w_ctx w)) in *. set (f0 := w_file w) in *.
-  fold base in Hbase. fold lo in Hbase, Hn.
-  assert (Hlo : lo <= f0) by lia.
-  assert (Efiles : w_files w = nfiles lo f0).
-  { rewrite (HN wr_ok_iota w Hok). fold lo. unfold nfiles. f_equal.
-    rewrite lenN_length in Hn. lia. }
-  assert (Hfull0 : forall n, lo <= n <= f0 -> full_file P fs0 n).
-  { intros n Hn'. apply Hfull. rewrite Efiles. apply (HN nfiles_In); lia. }
-  assert (Hgood : good P fs0 f0 U64_MAX).
-  { split; [apply Hfull0; lia|]. intros n H1 H2'. now apply Hfresh. }
-  pose proof HP' as (Hw' & (_ & Hdir0') & _ & Hbase' & Hc1' & Hc2' & _ & HWf' & _).
-  cbn zeta in Hc1', Hc2'. rewrite Eb in Hbase', Hc1', Hc2'.
-  pose proof Hw' as (Hok' & _ & Hoff' & _ & Hu' & Hfull' & _).
-  rewrite (vfs_nil _ Hp0') in Hfull'.
-  set (w' := s_wr st') in *. set (f1 := w_file w') in *.
-  destruct (wr_ok_len P (HB0c P HBS_lo HBS_hi HNB) HNB w' Hok') as (Hn' & Hn1').
-  (* the image has a top file; its unlinked files are among those of the call *)
-  destruct (crash_unlinks P HBS_lo HBS_hi HNB Hcrc lo f0 (w_off w) NEW f1 (w_off w') evs pe fs0 Hct
-              Hcpre Hgood Hfull0 Hlo Hu')
-    as (m & mu & Hmu & Hmuf1 & Hgone & Hbelow & Hex & fc & Hfc & (Htopf & Htopn)).
-  fold img in Hex, Htopf, Htopn.
-  assert (Hlo'mu : lo' <= lo + N.of_nat mu).
-  { apply (Hdir (lo + N.of_nat mu) ltac:(lia)) in Hex. apply (HN nfiles_In) in Hex; lia. }
-  assert (Hlo'x : lo' <= wlo w').
-  { assert (Hin : In (wlo w') (w_files w')).
-    { apply (HN RestartGc.wr_ok_In); [exact Hok'|lia]. }
-    destruct (Hfull' _ Hin) as (b & Hb & _). rewrite Hfs in Hb.
-    destruct (N.lt_ge_cases (wlo w') lo) as [Hlt|Hge].
-    - rewrite (Hbelow _ Hlt) in Hb.
-      assert (Hin0 : In (wlo w') (w_files w)).
-      { apply (Hdir0 Hu (wlo w') ltac:(lia)). now exists b. }
-      rewrite Efiles in Hin0. apply (HN nfiles_In) in Hin0; lia.
-    - destruct (N.lt_ge_cases (wlo w') (lo + N.of_nat m)) as [Hlt|Hge2]; [|lia].
-      rewrite (Hgone (wlo w') ltac:(lia)) in Hb. discriminate. }
-  assert (Htop : forall x, hi < x -> x <= U64_MAX -> fs_get img (filename x) = None).
-  { assert (E : fc = hi).
-    { apply (Hdir fc ltac:(lia)) in Htopf. apply (HN nfiles_In) in Htopf; [|lia].
-      destruct (N.lt_ge_cases fc hi) as [Hlt|]; [|lia].
-      destruct (Hlens hi ltac:(lia)) as (b & Hb & _).
-      rewrite (Htopn hi Hlt Hhimax) in Hb. discriminate. }
-    subst fc. exact Htopn. }
-  clear Hex Htopf Htopn Hgone Hbelow Hfc.
-  (* the data written by the prefix reach the start of the top file *)
-  assert (Hreach : (hi - f0) * FB <= w_off w + j).
-  { destruct (N.eq_dec hi f0) as [E|Hne]; [rewrite E, N.sub_diag; lia|].
-    destruct (Hlens hi ltac:(lia)) as (bb & Hbb & _). fold img in Hbb.
-    destruct (call_trace_reach P _ _ _ _ _ _ _ Hct pe Hcpre fs0 (filename hi)) as (nn & En & H1 & H2' & H3').
-    { apply Hfresh; lia. }
-    { fold img. rewrite Hbb. discriminate. }
-    assert (nn = hi) by (symmetry; apply filename_inj; [lia|lia|exact En]). subst nn. exact H3'. }
-  assert (Htophi : is_top img hi).
-  { split; [exact Hhimax|]. split; [|exact Htop].
-    destruct (Hlens hi ltac:(lia)) as (bb & Hbb & _). exists bb. exact Hbb. }
-  unfold hideP in Hfitpe.
-  assert (Hfitpe' : j = lenN NEW \/
-            (f0 * FB + w_off w + j + B <= (hi + 1) * FB \/ f0 * FB + w_off w + j = (hi + 1) * FB)).
-  { destruct Hfitpe as [E|H]; [left|right; exact (H hi Htophi Hf0hi)].
-    exact E. }
-  clear Hfitpe. rename Hfitpe' into Hfitpe.
-  set (n := N.to_nat (hi - lo')).
-  assert (Ecur : lo' + N.of_nat n = hi) by (unfold n; lia).
-  assert (Hlistx : list_wal_numbers img = iota lo' (S n)) by exact Hlist.
-  assert (Hfilesx : forall f, In f (iota lo' (S n)) ->
-            exists b, fs_get img (filename f) = Some (FFile b) /\ lenN b <= FB /\
-                      (f <> lo' + N.of_nat n -> lenN b = FB)).
-  { intros f Hf. apply iota_In in Hf. destruct (Hlens f ltac:(lia)) as (b & Hb & Hlb').
-    exists b. split; [exact Hb|]. rewrite Ecur.
-    destruct (N.eqb_spec f hi) as [->|Hne]; destruct short; cbn [andb] in Hlb'; split; lia. }
-  assert (Eext : fs_ext P img lo' n = zext P img hi).
-  { unfold fs_ext. rewrite Ecur. reflexivity. }
-  assert (Hbase'' : base <= lo') by lia.
-  assert (Ec0 : c0 = (lo - base) * FB + wpos P w) by reflexivity.
-  assert (ENEW : NEW = encs_of c0 (ser X)) by reflexivity.
-  set (a0 := lenN PRE0) in *.
-  assert (ET : T = PRE0 ++ encs_of a0 (jser0 G)) by reflexivity.
-  pose proof (jALL_split P PRE0 OLD0 opos0 w G HP) as HALLs.
-  pose proof (jlen_le P HBS_lo HBS_hi HNB Hcrc PRE0 OLD0 opos0 w G HP) as Hjlen.
-  assert (Hc1c : lenN T <= c0) by exact Hc1.
-  assert (Hc2c : c0 <= ffp (lenN T)) by exact Hc2.
-  assert (HFBpos : 0 < FB) by (apply (FBc_pos P HBS_lo HBS_hi HNB)).
-  (* the cursor lies in file f0; the whole call fits before the last block *)
-  assert (Ec0f : c0 = (f0 - base) * FB + w_off w).
-  { rewrite Ec0. unfold wpos.
-    replace (lenN (w_files w) - 1) with (f0 - lo) by lia.
-    replace (f0 - base) with ((lo - base) + (f0 - lo)) by lia. lia. }
-  pose proof (HW call_trace_pos _ _ _ _ _ _ _ Hct Hoff) as Hctp.
-  assert (Hfit : j = lenN NEW \/ c0 + j + B <= (hi + 1 - base) * FB \/ c0 + j = (hi + 1 - base) * FB).
-  { destruct Hfitpe as [E|Hfp]; [left; exact E|right].
-    rewrite Ec0f.
-    assert (Eq1 : (f0 - base) * FB + base * FB = f0 * FB) by (rewrite <- N.mul_add_distr_r; f_equal; lia).
-    assert (Eq2 : (hi + 1 - base) * FB + base * FB = (hi + 1) * FB) by (rewrite <- N.mul_add_distr_r; f_equal; lia).
-    clear - Eq1 Eq2 Hfp. lia. }
-  assert (Hroom01 : lenN PRE0 + rm0 <= (hi + 1 - base) * FB).
-  { unfold hideP in Hroom00. fold w in Hroom00. fold f0 in Hroom00. fold base in Hroom00.
-    assert ((f0 + 1 - base) * FB <= (hi + 1 - base) * FB) by (apply N.mul_le_mono_r; lia).
-    clear - H Hroom00. lia. }
-  assert (Hreach' : (hi - base) * FB <= c0 + j).
-  { rewrite Ec0f. replace (hi - base) with ((f0 - base) + (hi - f0)) by lia.
-    rewrite N.mul_add_distr_r. clear - Hreach. lia. }
-  set (S_all := T ++ zerosN (c0 - lenN T) ++ takeN j NEW ++ zerosN z) in *.
-  assert (HlenS : lenN S_all = (hi - base + 1) * FB).
-  { unfold S_all. rewrite !lenN_app, !lenN_zerosN, lenN_takeN.
-    replace (hi - base + 1) with (hi + 1 - base) by lia. lia. }
-  assert (HokS : stream_ok P S_all).
-  { exists ((hi - base + 1) * NB P). rewrite HlenS. unfold FILE_BYTES. lia. }
-  rewrite ENEW in Hj.
-  assert (HlT0 : lenN T = a0 + lenN (encs_of a0 (jser0 G))) by (rewrite ET, lenN_app; reflexivity).
-  assert (Ehb : hi - base + 1 = hi + 1 - base) by (clear - Hbase'' Hlohi; lia).
-  assert (ElS : lenN S_all = (hi + 1 - base) * FB)
-    by exact (eq_trans HlenS (f_equal (fun x => x * FB) Ehb)).
-  assert (Hfit' : j = lenN (encs_of c0 (ser X)) \/ c0 + j + B <= lenN S_all \/ c0 + j = lenN S_all).
-  { exact (eq_ind_r (fun n => j = lenN (encs_of c0 (ser X)) \/ c0 + j + B <= n \/ c0 + j = n) Hfit ElS). }
-  assert (Hroom02 : lenN PRE0 + rm0 <= lenN S_all).
-  { exact (eq_ind_r (fun n => lenN PRE0 + rm0 <= n) Hroom01 ElS). }
-  clear Hfit Hfitpe Hroom00 Hroom01.
-  destruct (crash_stream_pre3 P HBS_lo HBS_hi Hcrc PRE0 (ser OLD0) opos0 adm0 cmax0 rm0 (jser0 G)
-              c0 (ser X) j z S_all Hnc Hpc0 Hrm0 Hc1c Hc2c Hj
-              ltac:(unfold S_all; rewrite ENEW; reflexivity) HokS Hfit' Hroom02)
-    as (xs_d & xs_r & PRE & cmax & rm & zz & Hxs & Hpc & HSp & Hroom & Hcm & Hrm7 & Hblk2 &
-        HTP & Hc0P & HoldP & HPT' & Hfullj).
-  clear Hfit' Hroom02 Ehb ElS.
-  set (adm := adm0).
-  fold a0 in Hpc, HoldP, HPT'.
-  destruct (map_app_inv entry_ser X _ _ Hxs) as (Xd & Xr & HX & HXd & HXr).
-  set (OLD := gh_ALL G ++ Xd).
-  set (opos := opos0 ++ starts a0 (jser0 G ++ xs_d)).
-  assert (EserO : ser OLD = ser OLD0 ++ jser0 G ++ xs_d).
-  { unfold OLD. rewrite HALLs at 1. rewrite !map_app, HXd, <- app_assoc. reflexivity. }
-  pose proof Hpre0 as (Hl0 & Hb0 & Hs0).
-  assert (Hpre : pre_ok PRE OLD opos).
-  { split.
-    { unfold opos. rewrite app_length, (ResyncProofs.starts_length P), Hl0.
-      rewrite <- (map_length entry_ser OLD), EserO, !app_length, map_length. reflexivity. }
-    pose proof (H3 starts_bounds (jser0 G ++ xs_d) a0) as Hsb.
-    split.
-    { unfold opos. apply Forall_app. split.
-      - eapply Forall_impl; [|exact Hb0]. cbn beta. fold a0. intros s Hs.
-        assert (HTP' : lenN T <= lenN PRE) by exact HTP. rewrite HlT0 in HTP'. lia.
-      - eapply Forall_impl; [|exact Hsb]. cbn beta. intros s (_ & _ & Hs).
-        unfold ResyncProofs.cursor_after in Hs. lia. }
-    unfold opos. apply StronglySorted_app_lt; [exact Hs0|apply (H3 starts_sorted)|].
-    intros x y Hx Hy. rewrite Forall_forall in Hb0. specialize (Hb0 x Hx).
-    rewrite Forall_forall in Hsb. destruct (Hsb y Hy) as (H1 & H2' & _). fold a0 in Hb0. lia. }
-  assert (Hpc' : pre_cont P PRE (ser OLD) opos adm cmax rm).
-  { unfold opos. rewrite EserO. exact Hpc. }
-  assert (Hrd : pre_reads P PRE (ser OLD) opos adm cmax rm).
-  { apply (pre_reads_of_cont P HBS_lo HBS_hi Hcrc). exact Hpc'. }
-  (* geometry *)
-  assert (Hadm_all : forall mm, adm (mm * NB P)) by exact Hadm0.
-  assert (Hhi' : (hi - base) * FB <= ffp (lenN PRE)).
-  { replace ((hi - base) * FB) with ((hi - base) * NB P * B) by (unfold FILE_BYTES; lia).
-    apply Hblk2. replace ((hi - base) * NB P * B) with ((hi - base) * FB) by (unfold FILE_BYTES; lia).
-    exact Hreach'. }
-  assert (HwfO : Forall wf_entry OLD).
-  { unfold OLD. apply Forall_app. split; [exact HWf|].
-    rewrite HX in HwfX. apply Forall_app in HwfX. apply HwfX. }
-  assert (HSt : stream_of (fs_ext P img lo' n) (iota lo' (S n)) =
-                dropN ((lo' - base) * FB) (PRE ++ zerosN zz)).
-  { rewrite Eext, <- HSp. exact Hstream. }
-  assert (HlenS' : lenN (PRE ++ zerosN zz) = (lo' + N.of_nat n - base + 1) * FB).
-  { rewrite <- HSp, Ecur. exact HlenS. }
-  assert (Hroom' : lenN PRE + rm <= lenN (PRE ++ zerosN zz)) by (rewrite <- HSp; exact Hroom).
-  assert (Hhimax' : lo' + N.of_nat n <= U64_MAX) by (rewrite Ecur; exact Hhimax).
-  assert (Htop' : forall x, lo' + N.of_nat n < x -> x <= U64_MAX -> fs_get img (filename x) = None)
-    by (rewrite Ecur; exact Htop).
-  assert (Hhi'' : (lo' + N.of_nat n - base) * FB <= ffp (lenN PRE)) by (rewrite Ecur; exact Hhi').
-  assert (Hbffp : (lo' - base) * FB <= ffp (lenN PRE)).
-  { assert ((lo' - base) * FB <= (hi - base) * FB) by (apply N.mul_le_mono_r; lia). lia. }
-  assert (Hadmk : adm ((lo' - base) * NB P)) by apply Hadm_all.
-  assert (Hgc_any : forall mabs, crash_boundJ G X mabs ->
-            forall extra, pos_extra mabs extra ->
-              FB * base + cursor_after (lenN PRE) (ser extra) <= FB * (U64_MAX + 1)).
-  { intros mabs Hcbm extra Hx. apply (Hcbm (lenN PRE) extra Hx); [exact HTP|].
-    rewrite map_app. fold (jser0 G). fold a0. unfold ResyncProofs.cursor_after. exact HPT'. }
-  assert (Eopos : opos = jpos0 G ++ starts (lenN T) xs_d).
-  { unfold opos, JInv.jpos. rewrite (H3 starts_app), <- app_assoc. fold a0. do 3 f_equal.
-    unfold T. rewrite (jT_len P PRE0 OLD0 G). reflexivity. }
-  (* the logical ghost *)
-  assert (Hlog : exists qs_log lo_log Glog,
-            LInv qs_log lo_log Glog /\ gh_ALL Glog = OLD /\ gh_base Glog = base /\
-            Forall (fun s => (lo' - base) * FB <= snd s) (skipn (gh_k Glog) opos) /\
-            ((Xd = [] /\ forall q, s_get (abs_qs qs_log) q = s_get (abs_qs (s_qs st)) q) \/
-             (Xd <> [] /\ forall q, s_get (abs_qs qs_log) q = s_get (abs_qs (s_qs st')) q))).
-  { destruct nu as [|nu'].
-    - (* no file unlinked: the ghost of the delivered prefix of the call *)
-      assert (Elo' : lo' = lo) by (unfold lo'; cbn; lia).
-      destruct (Hprefix Xd Xr HX) as (Gd & qsd & HLd & Ebd & Ebefd & EEd & Hnil & Hcons).
-      assert (EALLd : gh_ALL Gd = OLD).
-      { rewrite gh_ALL_split, Ebefd, EEd, app_assoc, <- gh_ALL_split. reflexivity. }
-      assert (Ekd : gh_k Gd = gh_k G) by (rewrite <- !gh_before_length, Ebefd; reflexivity).
-      exists qsd, lo, Gd. split; [exact HLd|]. split; [exact EALLd|]. split; [exact Ebd|].
-      split.
-      { rewrite Ekd, Elo', Eopos.
-        rewrite skipn_app_le.
-        2:{ rewrite (jpos_length P HBS_lo HBS_hi HNB Hcrc PRE0 OLD0 opos0 w G Hpre0 HP).
-            rewrite gh_ALL_split, app_length, gh_before_length. lia. }
-        apply Forall_app. split.
-        - exact (pinvJ_E_positions P PRE0 OLD0 opos0 w G HP).
-        - pose proof (starts_ge_ffp P HBS_lo HBS_hi Hcrc xs_d (lenN T)) as Hs.
-          eapply Forall_impl; [|exact Hs]. cbn beta. intros s Hs'.
-          rewrite <- Elo'. lia. }
-      destruct Xd as [|x Xd''].
-      + left. split; [reflexivity|]. now apply Hnil.
-      + right. split; [discriminate|]. apply Hcons. discriminate.
-    - (* some files unlinked: everything was written; the ghost after the call *)
-      assert (Hjfull : j = lenN NEW) by (apply Hnuj; discriminate).
-      assert (HXr0 : Xr = []).
-      { destruct Xr as [|xr Xr']; [reflexivity|exfalso].
-        assert (Hne : xs_r <> []) by (rewrite <- HXr; discriminate).
-        specialize (Hfullj Hne). rewrite <- ENEW in Hfullj. lia. }
-      assert (EXd : Xd = X) by (rewrite HX, HXr0; now rewrite app_nil_r).
-      exists (s_qs st'), (wlo w'), G'.
-      split; [exact HL'|]. split; [unfold OLD; rewrite EXd; exact EALL'|]. split; [exact Eb|].
-      split.
-      { pose proof (pinvJ_E_positions P PRE0 OLD0 opos0 w' G' HP') as Hpos'. rewrite Eb in Hpos'.
-        assert (Ejp' : jpos0 G' = opos).
-        { unfold opos, JInv.jpos, JInv.jser, JInv.jNEW. rewrite EALL', skipn_app_le by exact Hjlen.
-          rewrite map_app, <- HXd, EXd. reflexivity. }
-        rewrite <- Ejp'.
-        eapply Forall_impl; [|exact Hpos']. cbn beta. intros s Hs'.
-        assert ((lo' - base) * FB <= (wlo w' - base) * FB) by (apply N.mul_le_mono_r; lia). lia. }
-      destruct (nil_dec X) as [E0|Hne].
-      + left. split; [congruence|]. exact (Hnilabs E0).
-      + right. split; [congruence|]. intros q. reflexivity. }
-  destruct Hlog as (qs_log & lo_log & Glog & HLlog & HALLlog & Eblog & Hklog & Habs).
-  assert (Hgcb : forall extra, pos_extra (abs_qs qs_log) extra ->
-            FB * base + cursor_after (lenN PRE) (ser extra) <= FB * (U64_MAX + 1)).
-  { destruct Habs as [[_ Ha]|[_ Ha]].
-    - apply (Hgc_any (abs_qs qs_log)). exact (crash_boundJ_ext P PRE0 OLD0 G X _ _ Ha Hcb).
-    - apply (Hgc_any (abs_qs qs_log)). exact (crash_boundJ_ext P PRE0 OLD0 G X _ _ Ha Hcb'). }
+  intros HI Hp0 HI' Eb EALL' Hp0' HwfX Hct Hfs Hprefix Hnilabs Hcb Hcb' pe Hcpre Hfitpe Hroom00. cbn zeta.
+  destruct (recover_vcall_setup_gen P HBS_lo HBS_hi HNB Hcrc Hnc PRE0 OLD0 opos0 adm0 cmax0 rm0
+              Hpre0 Hpc0 Hrm0 Hadm0 st G X st' G' evs HI Hp0 HI' Eb EALL' Hp0' HwfX Hct Hfs Hprefix Hnilabs
+              Hcb Hcb' pe Hcpre
+              (match Hfitpe with
+               | or_introl E => or_introl (conj E Hroom00)
+               | or_intror Hf => or_intror (fun hi Ht Hle =>
+                   match Hf hi Ht Hle with
+                   | or_introl Hfit => or_introl Hfit
+                   | or_intror Hex => or_intror (conj Hex Hroom00)
+                   end)
+               end))
+    as (PRE & OLD & opos & adm & cmax & rm & lo' & n & zz & qs_log & lo_log & Glog &
+        H1 & H2' & H3' & H4 & H5 & H6 & _ & _ & H7).
   exists PRE, OLD, opos, adm, cmax, rm, lo', n, zz, qs_log, lo_log, Glog.
-  split; [exact Hpre|]. split; [exact Hpc'|]. split; [exact Hrm7|]. split; [exact Hadm_all|].
-  split.
-  { unfold rc_hyps. cbv zeta.
-    split; [exact Hlistx|]. split; [exact Hfilesx|]. split; [exact Hbase''|]. split; [exact Hhimax'|].
-    split; [exact Hndk|]. split; [exact Hdir|]. split; [exact Htop'|]. split; [exact HSt|].
-    split; [exact HlenS'|]. split; [exact Hadmk|]. split; [exact Hroom'|]. split; [exact HwfO|].
-    split; [exact Hhi''|]. split; [exact Hbffp|]. split; [exact HLlog|]. split; [exact HALLlog|].
-    split; [exact Eblog|]. split; [exact Hklog|exact Hgcb]. }
-  split; [rewrite Ecur; exact Htophi|].
-  destruct Habs as [[_ Ha]|[_ Ha]]; [left|right]; exact Ha.
+  repeat (split; [assumption|]). exact H7.
 Qed.
 
 End Recover6.
